@@ -230,6 +230,8 @@ def run_pack(keys, kname='CubicSpline'):
     notcov_all = []
     ok_keys = list(keys)
     for side in ('reference', 'compiled'):
+        from vlib.build import reset_group_counter
+        reset_group_counter()
         insts, notcov = prepare(ok_keys if side == 'compiled' else keys)
         if side == 'reference':
             notcov_all = notcov
@@ -254,7 +256,7 @@ def run_pack(keys, kname='CubicSpline'):
             ae = AccelerationEval(arrays, groups, kernel)
             SPHCompiler(ae, None).compile()
             ae.set_nnps(nn)
-            ae.compute(0.25, 0.0625)
+            ae.compute(0.3, 0.07)
             sides[side] = dict((k, st) for k, st in results)
         else:
             # the bounds-checked reference runs first, every equation
@@ -269,7 +271,7 @@ def run_pack(keys, kname='CubicSpline'):
                 restore(arrays, init_state)
                 try:
                     ip = Interp(arrays, sub, kernel, nn)
-                    ip.compute(0.25, 0.0625)
+                    ip.compute(0.3, 0.07)
                     res[key] = results[0][1]
                 except Exception as ex:  # noqa
                     err[key] = '%s: %s' % (type(ex).__name__, str(ex)[:150])
